@@ -83,7 +83,7 @@ func (c19) InitWorker() {
 // taken from source positions alone does not decide between them.
 var c19ModelFiles = map[string]map[string]string{
 	"split": {
-		"a.sysl": "import b\n\nShop:\n    !table Customer:\n        id <: int [~pk]\n        zeta <: string\n        yankee <: string?\n        xray <: date\n    !table Order:\n        oid <: int [~pk]\n        cust <: Customer.id\n        zz <: int\n    !type Basket:\n        owner <: Customer\n        lines <: sequence of Order\n",
+		"a.sysl": "import b\n\nShop:\n    !table Customer:\n        id <: int [~pk]\n        zeta <: string\n        yankee <: string?\n        xray <: date\n    !table Order:\n        oid <: int [~pk]\n        cust <: Customer.id\n        zz <: int\n    !type Basket:\n        owner <: Customer\n        lines <: sequence of Order\n    !type Shelf [json_map_key=\"item_id\"]:\n        item_id <: string\n        item <: Basket\n        where <: Customer\n        updated <: date\n        second <: Order\n",
 		"b.sysl": "# columns shared with other models\nShop:\n    !table Customer:\n        note <: string\n        alpha <: string\n        bravo <: string?\n        charlie <: int\n    !table Order:\n        oa <: int\n        ob <: Customer.id\n        oc <: string\n    !type Basket:\n        count <: int\n        first <: Order\n        label <: string?\n",
 	},
 }
